@@ -28,7 +28,7 @@ LEVEL = "exploration"
 SHARDS = {"quick": 4, "thorough": 16}
 RULE = (
     "Hypothesis draws (prior context of 0..3 accepted array checks, leaf type L, tree): L in {int, str, tuple[int,int], "
-    "Union[int,str], Any, Shaped[ndarray, spec] with named/variadic axes, Union[Shaped[..], str], tuple[Shaped[..], int]}; tree payloads are mostly of the right kind with "
+    "Union[int,str], int|str, Any, Shaped[ndarray, spec] with named/variadic axes, Union[Shaped[..], str], Shaped[..]|str, tuple[Shaped[..], int]}; tree payloads are mostly of the right kind with "
     "~15% wrong-kind leaves; array leaf shapes are drawn one after the other against the evolving model context (so later "
     "leaves meet bindings made by earlier ones) and broken w.p. ~0.15 each. Each case evaluates PyTree[L], PyTree[PyTree[L]] "
     "and bare PyTree. Non-trivial = >=3 leaves at >=2 depths AND (a subtree that itself matches L, or a None/empty node, or an "
@@ -40,8 +40,8 @@ ASSUMPTIONS = [
     "reference PyTree model vf/models/pytree.py (cross-checked against jax.tree_util inside C09's run)",
 ]
 
-LEAF_KINDS = ["array", "union-arr", "int", "tuple-arr", "pair", "array", "union", "str", "any", "array"]
-ARRAYISH = ("array", "union-arr", "tuple-arr")
+LEAF_KINDS = ["array", "union-arr", "int", "tuple-arr", "pair", "array", "union", "union-bar", "str", "any", "array", "union-arr-bar"]
+ARRAYISH = ("array", "union-arr", "tuple-arr", "union-arr-bar")
 
 
 def leaf_type(lk, spec):
@@ -53,6 +53,10 @@ def leaf_type(lk, spec):
         return tuple[int, int]
     if lk == "union":
         return Union[int, str]
+    if lk == "union-bar":
+        return int | str  # PEP 604 spelling of the same union
+    if lk == "union-arr-bar":
+        return Shaped[np.ndarray, spec] | str
     if lk == "any":
         return Any
     if lk == "union-arr":
@@ -72,6 +76,7 @@ def is_arr_int(d):
 
 def matches_flat(d, lk):
     """Does the subtree d match L when only looking at types (leaf discovery)?"""
+    lk = {"union-bar": "union", "union-arr-bar": "union-arr"}.get(lk, lk)
     if lk == "pair":
         return is_pair(d)
     if lk == "tuple-arr":
@@ -104,7 +109,7 @@ def model(lk, meanings, desc, m: dl.MCtx):
     for lf in lvs:
         if not matches_flat(lf, lk):
             return {dl.FALSE}, m, {"leaves": len(lvs)}
-        if lk in ARRAYISH and not (lk == "union-arr" and lf[1][0] == "s"):
+        if lk in ARRAYISH and not (lk in ("union-arr", "union-arr-bar") and lf[1][0] == "s"):
             before = set(m2.single) | set(m2.variadic)
             shp = lf[1][0][1][1] if lk == "tuple-arr" else lf[1][1]
             o = dl.match(meanings, shp, m2)
@@ -247,7 +252,7 @@ def c08_case(draw):
             if gd.chance(draw, 0.07):
                 payloads.append(("i", draw(ints)))
                 continue
-            if lk == "union-arr" and draw(st.integers(0, 3)) == 3:
+            if lk in ("union-arr", "union-arr-bar") and draw(st.integers(0, 3)) == 3:
                 payloads.append(("s", draw(strs)))
                 continue
             shp, _ = draw(gd.shape_for(meanings, mm, mutate_prob=0.15))
@@ -265,7 +270,7 @@ def c08_case(draw):
                 payloads.append(("s", draw(strs)) if wrong else ("i", draw(ints)))
             elif lk == "str":
                 payloads.append(("i", draw(ints)) if wrong else ("s", draw(strs)))
-            elif lk == "union":
+            elif lk in ("union", "union-bar"):
                 payloads.append(("a", [2]) if wrong else draw(st.one_of(ints.map(lambda v: ("i", v)), strs.map(lambda v: ("s", v)))))
             elif lk == "pair":
                 r = draw(st.integers(0, 9))
